@@ -107,6 +107,27 @@ def generate(L):
     _order(pc, "working_log.write_all_checkpoints(&parent_working_log)", "notes_add(repo, &commit_sha", "post_commit")
     _order(pc, "notes_add(repo, &commit_sha", "write_initial_attributions(", "post_commit")
     refresh_locked = bool(LOCK_TOKENS.search(pc))
+    # which operations does post_commit apply to the working log of the NEW commit?  (an agent may already have
+    # checkpointed against the new HEAD: git moves HEAD before the post-commit step runs)
+    binds = re.findall(r"let\s+(\w+)\s*=\s*repo_storage\s*\.\s*working_log_for_base_commit\(\s*&commit_sha\s*\)", pc)
+    if binds != ["new_working_log"]:
+        raise L.GenError(f"post_commit: expected exactly one binding of the new commit's working log, found {binds}")
+    new_ops = sorted(set(re.findall(r"\bnew_working_log\s*\.\s*(\w+)\s*\(", pc)))
+    allowed = {"write_initial_attributions", "reset_working_log"}
+    if not new_ops or not set(new_ops) <= allowed:
+        raise L.GenError(f"post_commit: operations on the new commit's working log are {new_ops}; the model knows {sorted(allowed)}")
+    if "write_initial_attributions" not in new_ops:
+        raise L.GenError("post_commit: write_initial_attributions on the new working log not found")
+    new_log_reset = "reset_working_log" in new_ops
+    if re.search(r"(delete_working_log_for_base_commit|rename_working_log)\(\s*&commit_sha", pc):
+        raise L.GenError("post_commit deletes/renames the working log of the NEW commit (not modelled)")
+    if len(re.findall(r"delete_working_log_for_base_commit\(", pc)) != 1 or \
+            "repo_storage.delete_working_log_for_base_commit(&parent_sha)" not in pc:
+        raise L.GenError("post_commit: the single delete of the PARENT's working log not found")
+    rw_ = L.find_fn(src, "reset_working_log", rel)
+    for tok in ('self.dir.join("checkpoints.jsonl")', "fs::write(&checkpoints_file", "remove_file(&self.initial_file)"):
+        if tok not in rw_:
+            raise L.GenError(f"reset_working_log: {tok} not found")
     notes_locked = notes_locked or refresh_locked
     rel6 = "src/git/repository.rs"
     src6 = L.read_src(rel6)
@@ -197,6 +218,7 @@ def generate(L):
         "Definition append_event_locked : bool := " + L.coq_bool(ev_locked) + ".",
         "Definition notes_add_locked : bool := " + L.coq_bool(notes_locked) + ".",
         "Definition post_commit_refresh_locked : bool := " + L.coq_bool(refresh_locked) + ".",
+        "Definition post_commit_resets_new_log : bool := " + L.coq_bool(new_log_reset) + ".",
         "Definition rewrite_errors_swallowed : bool := " + L.coq_bool(swallowed) + ".",
         "Definition max_events : nat := " + str(max_events) + "%nat.",
         "Definition s_ai : list N := " + s("ai") + ".",
